@@ -6,7 +6,7 @@ from __future__ import annotations
 import ast
 from typing import Dict, List, Optional, Set, Tuple
 
-from oqv import rolebind
+from oqv import rolebind, roles
 from oqv.astutil import branch_context, call_name, method_call
 from oqv.cfg import CFG
 from oqv.dataflow import DefUse
@@ -120,6 +120,35 @@ def s1(prog: Program, chk: Check) -> None:
         chk.add("S1", u, f"deg_positions <- {norm(dp) if dp is not None else '?'}", ok, why, c)
 
 
+def _callable_kind(du: DefUse, nid: int, f: ast.AST, nested: Dict[str, ast.AST]) -> Optional[str]:
+    """'propagators' / 'controls' for a local callable, judged by what it was made from
+    (system.get_propagators(...), a closure around control.get_controls(...)); the local's
+    own name only counts when it has no definition in this function (comprehension variable)."""
+    if not isinstance(f, ast.Name):
+        return None
+    if f.id in nested:
+        inner = nested[f.id]
+        if any(isinstance(c, ast.Call) and isinstance(c.func, ast.Attribute)
+               and c.func.attr == "get_controls" for c in ast.walk(inner)):
+            return "controls"
+        return None
+    ds = [d for d in du.reaching(nid, f.id) if d.value is not None]
+    kinds = set()
+    for d in ds:
+        v = d.value
+        if isinstance(v, ast.Call) and isinstance(v.func, ast.Attribute) \
+                and v.func.attr in ("get_propagators", "get_unitary_propagators") and not d.sel:
+            kinds.add("propagators")
+        else:
+            kinds.add(None)
+    if kinds == {"propagators"}:
+        return "propagators"
+    if not ds and f.id == "propagators":
+        return "propagators"
+    return None
+
+
+
 # --------------------------------------------------------------------- S2
 def s2(prog: Program, chk: Check) -> None:
     chk.rule("S2", "in every stepper the index handed to the system's propagators equals the "
@@ -158,8 +187,9 @@ def s2(prog: Program, chk: Check) -> None:
         u = prog.unit(q)
         t = Tags(prog, u)
         chk.saw(u, t.g)
-        loop = [n for n in t.g.nodes if n.kind == "iter" and "num_steps" in norm(n.ast.iter)
-                and "reversed" not in norm(n.ast.iter)]
+        loop = [n for n in t.g.nodes if n.kind == "iter" and isinstance(n.ast.iter, ast.Call)
+                and dotted(n.ast.iter.func) == "range" and len(n.ast.iter.args) == 1
+                and t.form(n.ast.iter.args[0], n.id) in (Poly.sym("N"), Poly.sym("N") + ONE)]
         if not loop:
             raise AnalysisError(f"S2: stepping loop of {q} not found")
         body = t.g.reachable([b for b, l in t.g.succ[loop[0].id] if l == "it"],
@@ -168,16 +198,18 @@ def s2(prog: Program, chk: Check) -> None:
                         if t.g.find_path([n], lambda x: x == loop[0].id,
                                          edge_ok=lambda a, b, l: True) is not None}
         found = {}
+        nested = {x.name: x for x in u.node.body if isinstance(x, ast.FunctionDef)}
         for nid in sorted(body_in_loop):
             for c in t.g.nodes[nid].calls():
                 fn = call_name(c) or ""
-                if fn == "propagators" or (isinstance(c.func, ast.Name) and c.func.id == "propagators"):
+                kind = _callable_kind(t.du, nid, c.func, nested)
+                if kind == "propagators" and c.args:
                     found.setdefault("propagators", set()).add(repr(t.form(c.args[0], nid)))
                 if fn == "_get_pt_mpos":
                     found.setdefault("_get_pt_mpos", set()).add(repr(t.form(c.args[1], nid)))
                 if fn == "_get_caps":
                     found.setdefault("_get_caps", set()).add(repr(t.form(c.args[1], nid)))
-                if fn in ("controls", "prepare_controls"):
+                if kind == "controls" and c.args:
                     found.setdefault("controls", set()).add(repr(t.form(c.args[0], nid)))
         need = {"propagators", "_get_pt_mpos", "_get_caps", "controls"}
         ok = need <= set(found) and all(v == {repr(STEP)} for v in found.values())
